@@ -383,10 +383,38 @@ def sockShutdown (fds : Fds) (fd how : Nat) : List Res :=
 /-! ### dispatcher and the designated output regions (specification, over ℕ) -/
 
 /-- the 22 functions of `Wz.Model.Wasi` (one alternative each) -/
-def modelled1 : List String :=
-  ["poll_oneoff", "fd_read", "fd_pread", "fd_write", "fd_pwrite", "args_get", "environ_get", "args_sizes_get",
-   "environ_sizes_get", "clock_res_get", "clock_time_get", "random_get", "fd_prestat_get", "fd_prestat_dir_name",
-   "fd_renumber", "fd_close", "fd_fdstat_get", "fd_filestat_get", "fd_seek", "fd_tell", "proc_exit", "sched_yield"]
+inductive Fn1 where
+  | poll_oneoff | fd_read | fd_pread | fd_write | fd_pwrite | args_get | environ_get | args_sizes_get | environ_sizes_get | clock_res_get | clock_time_get | random_get | fd_prestat_get | fd_prestat_dir_name | fd_renumber | fd_close | fd_fdstat_get | fd_filestat_get | fd_seek | fd_tell | proc_exit | sched_yield
+deriving Repr, DecidableEq
+
+def Fn1.all : List Fn1 :=
+  [.poll_oneoff, .fd_read, .fd_pread, .fd_write, .fd_pwrite, .args_get, .environ_get, .args_sizes_get, .environ_sizes_get, .clock_res_get, .clock_time_get, .random_get, .fd_prestat_get, .fd_prestat_dir_name, .fd_renumber, .fd_close, .fd_fdstat_get, .fd_filestat_get, .fd_seek, .fd_tell, .proc_exit, .sched_yield]
+
+def Fn1.name : Fn1 → String
+  | .poll_oneoff => "poll_oneoff"
+  | .fd_read => "fd_read"
+  | .fd_pread => "fd_pread"
+  | .fd_write => "fd_write"
+  | .fd_pwrite => "fd_pwrite"
+  | .args_get => "args_get"
+  | .environ_get => "environ_get"
+  | .args_sizes_get => "args_sizes_get"
+  | .environ_sizes_get => "environ_sizes_get"
+  | .clock_res_get => "clock_res_get"
+  | .clock_time_get => "clock_time_get"
+  | .random_get => "random_get"
+  | .fd_prestat_get => "fd_prestat_get"
+  | .fd_prestat_dir_name => "fd_prestat_dir_name"
+  | .fd_renumber => "fd_renumber"
+  | .fd_close => "fd_close"
+  | .fd_fdstat_get => "fd_fdstat_get"
+  | .fd_filestat_get => "fd_filestat_get"
+  | .fd_seek => "fd_seek"
+  | .fd_tell => "fd_tell"
+  | .proc_exit => "proc_exit"
+  | .sched_yield => "sched_yield"
+
+def modelled1 : List String := Fn1.all.map Fn1.name
 
 /-- the 24 functions of this file -/
 inductive Fn2 where
@@ -417,31 +445,37 @@ def modelled2 : List String := Fn2.all.map Fn2.name
 
 def modelled : List String := modelled1 ++ modelled2
 
+def call1e (fixed : Bool) (h : Host) (fds : Fds) (m : Mem) (fn : Fn1) (a : List Nat) : Option Res :=
+  match fn with
+  | .poll_oneoff => (match a with | [i, o, n, r] => some (pollOneoff fixed fds m (w32 i) (w32 o) (w32 n) (w32 r)) | _ => none)
+  | .fd_read => (match a with | [fd, iovs, cnt, r] => some (fdRead h fds m (w32 fd) (w32 iovs) (w32 cnt) (w32 r)) | _ => none)
+  | .fd_pread => (match a with | [fd, iovs, cnt, _, r] => some (fdPread fds m (w32 fd) (w32 iovs) (w32 cnt) (w32 r)) | _ => none)
+  | .fd_write => (match a with | [fd, iovs, cnt, r] => some (fdWrite fds m (w32 fd) (w32 iovs) (w32 cnt) (w32 r)) | _ => none)
+  | .fd_pwrite => (match a with | [fd, iovs, cnt, _, r] => some (fdPwrite fds m (w32 fd) (w32 iovs) (w32 cnt) (w32 r)) | _ => none)
+  | .args_get => (match a with | [p, q] => some (argsGet h m (w32 p) (w32 q)) | _ => none)
+  | .environ_get => (match a with | [p, q] => some (environGet h m (w32 p) (w32 q)) | _ => none)
+  | .args_sizes_get => (match a with | [p, q] => some (argsSizesGet h m (w32 p) (w32 q)) | _ => none)
+  | .environ_sizes_get => (match a with | [p, q] => some (environSizesGet h m (w32 p) (w32 q)) | _ => none)
+  | .clock_res_get => (match a with | [id, r] => some (clockResGet h m (w32 id) (w32 r)) | _ => none)
+  | .clock_time_get => (match a with | [id, _, r] => some (clockTimeGet h m (w32 id) (w32 r)) | _ => none)
+  | .random_get => (match a with | [b, l] => some (randomGet m (w32 b) (w32 l)) | _ => none)
+  | .fd_prestat_get => (match a with | [fd, r] => some (fdPrestatGet h fds m (w32 fd) (w32 r)) | _ => none)
+  | .fd_prestat_dir_name => (match a with | [fd, p, l] => some (fdPrestatDirName h fds m (w32 fd) (w32 p) (w32 l)) | _ => none)
+  | .fd_renumber => (match a with | [f, t] => some (renumber none fds (w32 f) (w32 t)) | _ => none)
+  | .fd_close => (match a with | [fd] => some (fdClose fds (w32 fd)) | _ => none)
+  | .fd_fdstat_get => (match a with | [fd, r] => some (statLike fds m (w32 fd) (w32 r) 24) | _ => none)
+  | .fd_filestat_get => (match a with | [fd, r] => some (statLike fds m (w32 fd) (w32 r) 64) | _ => none)
+  | .fd_seek => (match a with | [fd, _, _, r] => some (seekLike fds (w32 fd) (w32 r)) | _ => none)
+  | .fd_tell => (match a with | [fd, r] => some (seekLike fds (w32 fd) (w32 r)) | _ => none)
+  | .proc_exit => (match a with | [_] => some { err := .exit } | _ => none)
+  | .sched_yield => (match a with | [] => some { err := .errno 0 } | _ => none)
+
+
+/-- the same, by name -/
 def call1 (fixed : Bool) (h : Host) (fds : Fds) (m : Mem) (fn : String) (a : List Nat) : Option Res :=
-  match fn, a with
-  | "poll_oneoff", [i, o, n, r] => some (pollOneoff fixed fds m (w32 i) (w32 o) (w32 n) (w32 r))
-  | "fd_read", [fd, iovs, cnt, r] => some (fdRead h fds m (w32 fd) (w32 iovs) (w32 cnt) (w32 r))
-  | "fd_pread", [fd, iovs, cnt, _, r] => some (fdPread fds m (w32 fd) (w32 iovs) (w32 cnt) (w32 r))
-  | "fd_write", [fd, iovs, cnt, r] => some (fdWrite fds m (w32 fd) (w32 iovs) (w32 cnt) (w32 r))
-  | "fd_pwrite", [fd, iovs, cnt, _, r] => some (fdPwrite fds m (w32 fd) (w32 iovs) (w32 cnt) (w32 r))
-  | "args_get", [p, q] => some (argsGet h m (w32 p) (w32 q))
-  | "environ_get", [p, q] => some (environGet h m (w32 p) (w32 q))
-  | "args_sizes_get", [p, q] => some (argsSizesGet h m (w32 p) (w32 q))
-  | "environ_sizes_get", [p, q] => some (environSizesGet h m (w32 p) (w32 q))
-  | "clock_res_get", [id, r] => some (clockResGet h m (w32 id) (w32 r))
-  | "clock_time_get", [id, _, r] => some (clockTimeGet h m (w32 id) (w32 r))
-  | "random_get", [b, l] => some (randomGet m (w32 b) (w32 l))
-  | "fd_prestat_get", [fd, r] => some (fdPrestatGet h fds m (w32 fd) (w32 r))
-  | "fd_prestat_dir_name", [fd, p, l] => some (fdPrestatDirName h fds m (w32 fd) (w32 p) (w32 l))
-  | "fd_renumber", [f, t] => some (renumber none fds (w32 f) (w32 t))
-  | "fd_close", [fd] => some (fdClose fds (w32 fd))
-  | "fd_fdstat_get", [fd, r] => some (statLike fds m (w32 fd) (w32 r) 24)
-  | "fd_filestat_get", [fd, r] => some (statLike fds m (w32 fd) (w32 r) 64)
-  | "fd_seek", [fd, _, _, r] => some (seekLike fds (w32 fd) (w32 r))
-  | "fd_tell", [fd, r] => some (seekLike fds (w32 fd) (w32 r))
-  | "proc_exit", [_] => some { err := .exit }
-  | "sched_yield", [] => some { err := .errno 0 }
-  | _, _ => none
+  match Fn1.all.find? (fun f => f.name == fn) with
+  | some f => call1e fixed h fds m f a
+  | none => none
 
 /-- the 24 functions of this file; 32-bit parameters are reduced with `w32`, 64-bit ones with `% 2^64` -/
 def call2e (fixedRecv : Bool) (h : Host) (fds : Fds) (m : Mem) (fn : Fn2) (a : List Nat) : Option (List Res) :=
